@@ -425,7 +425,7 @@ impl<'a> IExec<'a> {
         *self.m.effects_applied.entry(key.clone()).or_insert(0) += 1;
         let gw_ev = Ev { contract: addr_bytes(&self.gateway), topics: vec![sym("message_executed"), claimed.to_scval()], data: ScVal::Void };
         let from_gw = self.from(&res.events, &self.gateway.clone());
-        if !ctx.check(from_gw == vec![gw_ev], &["C04"], "inbound/approval-not-consumed-exactly-once", || format!("{:?}", from_gw)) {
+        if !ctx.check(crate::judge::events_match(&from_gw, &[gw_ev], &[]), &["C04"], "inbound/approval-not-consumed-exactly-once", || format!("{:?}", from_gw)) {
             return;
         }
         let from_its = self.from(&res.events, &its);
@@ -447,7 +447,7 @@ impl<'a> IExec<'a> {
                             topics: vec![sym("interchain_transfer_received"), sstr(&origin), sbytes(&id), sbytes(&src), saddr(&self.h[to]), si128(amount)],
                             data: svec(vec![if data.is_empty() { ScVal::Void } else { sbytes(&data) }]),
                         }];
-                        if !ctx.check(from_its == exp, &["C05"], "inbound/wrong-received-event", || format!("{:?}", from_its)) {
+                        if !ctx.check(crate::judge::events_match(&from_its, &exp, &[]), &["C05"], "inbound/wrong-received-event", || format!("{:?}", from_its)) {
                             return;
                         }
                         if !data.is_empty() {
